@@ -85,6 +85,19 @@ def shrink_text(s, fails):
     return s, best
 
 
+def new_only(prop, oracle, classify):
+    """oracle restricted to failures that are not instances of a listed (open) finding of `prop` -- for the search stage, which
+    looks for an input that fails BECAUSE of a change"""
+    known = [k for k in vlib.load_known_findings() if k.get('property') == prop and k.get('status') == 'open']
+
+    def f(*a, **kw):
+        r = oracle(*a, **kw)
+        if isinstance(r, dict) and classify(r, known) is not None:
+            return None
+        return r
+    return f
+
+
 def generic_search(ctx, hints, oracle, gen=None, extra_inputs=(), cand_oracle=None):
     """Search stage: disagreeing inputs, corpus-like extras, then the generators under a budget."""
     fails = []
